@@ -1,4 +1,5 @@
 """Hypothesis strategies: specs (systems) and edits. Construction, not rejection."""
+import copy
 import math
 from datetime import datetime, timedelta
 
@@ -262,6 +263,29 @@ def specs(draw, sharing=None, builders=None, max_len=48, long_prob=0.1, neg_stor
                     e = {"cls": "WebApplication", "server": srv, "technology": draw(st.sampled_from(web_choices()))[0]}
             objs["svc%d" % i] = e
             services.append("svc%d" % i)
+        # sometimes a second service of the same class on another server and (for now) without job: re-pointing a job
+        # to it moves load between servers and wakes up a service that nothing had computed yet
+        if services and draw(st.floats(0, 1)) < 0.35:
+            src = draw(st.sampled_from(services))
+            scls = objs[src]["cls"]
+            others = [s_ for s_ in servers if s_ != objs[src]["server"] and
+                      (objs[s_]["cls"] == "GPUServer") == (scls == "GenAIModel")]
+            if others:
+                tgt = draw(st.sampled_from(others))
+                e2 = copy.deepcopy(objs[src])
+                e2["server"] = tgt
+                if scls == "GenAIModel":
+                    tot = next(x[2] for x in genai_choices() if x[0] == e2["provider"] and x[1] == e2["model_name"])
+                    need_gb = 1.2 * tot * 1e9 * 16 / 8e9
+                    ram_per_gpu = objs[tgt].get("ram_per_gpu", [80.0, "GB/gpu"])[0]
+                    util = objs[tgt].get("server_utilization_rate", [1.0, ""])[0]
+                    objs[tgt]["compute"] = [float(max(math.ceil(need_gb / (ram_per_gpu * util)) + 2,
+                                                      objs[tgt].get("compute", [4.0])[0]) + 50), "gpu"]
+                elif scls == "VideoStreaming" and objs[tgt]["cls"] == "Server" and \
+                        objs[tgt].get("ram", [128.0, "GB"])[0] < 32:
+                    objs[tgt]["ram"] = [64.0, "GB"]
+                objs["svc_twin"] = e2
+                services.append("svc_twin")
 
     # jobs
     plain_servers = [s for s in servers if objs[s]["cls"] != "GPUServer"]
